@@ -1,3 +1,4 @@
+use anyhow::{bail, Result};
 use bytes::{Buf, BufMut, Bytes, BytesMut};
 
 pub fn encode_message_batch(batch: Vec<Bytes>) -> Bytes {
@@ -14,15 +15,37 @@ pub fn encode_message_batch(batch: Vec<Bytes>) -> Bytes {
     bytes.into()
 }
 
-pub fn decode_message_batch(mut bytes: Bytes) -> Vec<Bytes> {
+pub fn decode_message_batch(mut bytes: Bytes) -> Result<Vec<Bytes>> {
+    const LEN_SIZE: usize = std::mem::size_of::<u64>();
+
+    if bytes.remaining() < LEN_SIZE {
+        bail!("Message batch is missing its message count");
+    }
+
     let num_of_messages = bytes.get_u64();
+
+    // Every message occupies at least its length marker, so a count larger than this
+    // cannot be honest. Checking it up front also bounds the allocation below.
+    if num_of_messages > (bytes.remaining() / LEN_SIZE) as u64 {
+        bail!("Message batch count exceeds the size of the batch");
+    }
+
     let mut messages = Vec::with_capacity(num_of_messages as usize);
 
     for _ in 0..num_of_messages {
+        if bytes.remaining() < LEN_SIZE {
+            bail!("Message batch is truncated");
+        }
+
         let message_len = bytes.get_u64();
+
+        if message_len > bytes.remaining() as u64 {
+            bail!("Message length exceeds the size of the batch");
+        }
+
         let message_bytes = bytes.split_to(message_len as usize);
         messages.push(message_bytes);
     }
 
-    messages
+    Ok(messages)
 }
